@@ -30,8 +30,12 @@ class MathOperator(Operator):
                     raise DivideByZeroError(self.stack)
                 return left / right
             case "//":
+                if right == 0:
+                    raise DivideByZeroError(self.stack)
                 return left // right
             case "^":
                 return left**right
             case _:
+                if right == 0:
+                    raise DivideByZeroError(self.stack)
                 return left % right
